@@ -12,7 +12,7 @@ package impl
 // because 2^255 = 19, 2^256 = 38 and 2^511 = 2^256 * 2^255 = 38*19 = 722 modulo p. The receiver is unchanged unless
 // both halves decode; inputs longer than 64 bytes are rejected.
 //@ func (*Fp).SetBytesWide
-//@   property C13
+//@   property C13, C14
 //@   bind Fp ringint, *Fp ringptr
 //@   ghostvar l0 Int
 //@   ghostvar h0 Int
